@@ -236,6 +236,12 @@ class Run:
             else:
                 print(f"note: known finding {e['id']} of {self.prop} matched no case in this run/tier")
         replay_paths = []
+        if self.violations and os.environ.get("VERIF_DEBUG"):
+            groups = {}
+            for v in self.violations:
+                groups.setdefault((v["symptom"], tuple(v["features"])), []).append(v)
+            for k, vs in sorted(groups.items()):
+                print("GROUP", k, len(vs), "|", str(vs[0]["detail"])[:300].replace("\n", " / "))
         if self.violations:
             rdir = os.path.join(VERIF, "replays", self.prop)
             os.makedirs(rdir, exist_ok=True)
